@@ -1,9 +1,75 @@
 (* C01 — SSDP messages survive the wire and decode independently of history.  Property theorems only. *)
-From Coq Require Import List Bool NArith ZArith.
-From AUC Require Import Prelude.PyStr Prelude.Utf8 C01.Model.
+From Coq Require Import List Bool NArith ZArith Permutation.
+From AUC Require Import Prelude.PyStr Prelude.PyDict Prelude.Utf8 C16.Model C16.Indep C03.Model
+  C01.Model C01.Spec C01.Wire C01.Roundtrip C01.Run C01.Clause C01.Fresh.
 Import ListNotations.
+Local Open Scope N_scope.
+
+(* Round trip (all three start lines; every header list whose names are tokens, distinct ignoring
+   case and not decoder metadata, whose values are Unicode scalar strings without CR/LF and without
+   surrounding blanks, each field at most 8190 bytes; every IPv4 / IPv6 (scoped or not) sender, port,
+   receive time; whatever urlsplit / ip_address answer): the datagram build_ssdp_packet emits passes
+   is_valid_ssdp_packet and decode_ssdp_packet returns the start line and a header map that, read
+   case-insensitively, is exactly: every sent header with its value (LOCATION adjusted as the code's
+   link-local rule says, the sent value kept under _location_original), _host, _udn (iff the USN is a
+   uuid USN), _timestamp, _remote_addr, _port, _local_addr.
+   Partial: under the guard kf_nul (known finding D27: a NUL inside a value), refuted below. *)
+Theorem C01_roundtrip_partial :
+  forall (url_of : pystr -> url_info) start hs local_tok a remote_tok now,
+    In start start_lines -> headers_ok hs = true -> kf_nul hs = false ->
+    is_valid_packet (build_packet start hs) = true /\
+    exists h, decode url_of (build_packet start hs) local_tok a remote_tok now = Ok (start, h) /\
+              Permutation (b_as_lower str_eqb lower h) (expected url_of hs local_tok a remote_tok now).
+Proof.
+  intros url_of start hs l a r n Hs Hh Hk. split; [now apply is_valid_built|].
+  apply decode_built; [exact Hs | now apply headers_ok_dom].
+Qed.
+Print Assumptions C01_roundtrip_partial.
+
+(* the full statement (without the guard) is false of the faithful model: D27 *)
+Theorem C01_roundtrip_refuted :
+  exists hs, headers_ok hs = true /\
+    decode (fun _ => no_url) (build_packet [72;84;84;80;47;49;46;49;32;50;48;48;32;79;75] hs) 0
+           {| a_host := [49]; a_port := 1; a_v6 := None |} 0 0%Z = Raise EInvalidHeader.
+Proof. exists [([88], [97; 0; 98])]. vm_compute. split; reflexivity. Qed.
+Print Assumptions C01_roundtrip_refuted.
+
+(* the same through the clause the correspondence check evaluates on the implementation's
+   observations: decode steps are judged one by one, whatever was decoded or mutated before, because the
+   model's decode is a function of the datagram, the addresses and the clock alone *)
+Theorem C01_clause_roundtrip :
+  forall url_of ds st,
+    step_in_domain ds st = true -> step_kf ds st = false ->
+    c_roundtrip url_of ds st (decode_obs url_of ds st) = true.
+Proof. exact clause_roundtrip. Qed.
+Print Assumptions C01_clause_roundtrip.
+
+(* the wire level alone: parsing what was built gives back the header list and the start line *)
+Theorem C01_header_parse_built :
+  forall start hs, In start start_lines -> hs_props hs -> header_parse (build_packet start hs) = Ok (hs, start).
+Proof. exact header_parse_built. Qed.
+Print Assumptions C01_header_parse_built.
 
 (* every string of Unicode scalar values survives str.encode() / bytes.decode("utf-8","surrogateescape") *)
 Theorem C01_utf8_roundtrip : forall s, forallb is_scalar s = true -> dec_lenient (utf8_encode s) = s.
 Proof. exact dec_lenient_encode. Qed.
 Print Assumptions C01_utf8_roundtrip.
+
+(* later modification of an earlier result cannot change what a datagram decodes to: the result of
+   combine_lower_dict(cached map, metadata) is a fresh header map, and in-place mutation through it
+   never changes the cached map (any body implementation of the C16 machine) *)
+Theorem C01_cache_unreachable :
+  forall (K V B : Type) (I : iface K V B) (s : store B) (c v j : nat)
+         (items : list (K * V)) (muts : list (C16.Model.op K V)),
+    wf s -> lookup_var (env s) c = Some j -> v <> c ->
+    snd (C16.Model.step I s (OCombineLower v c items)) = ObDone ->
+    forallb (mutates v) muts = true ->
+    body_of (exec I (fst (C16.Model.step I s (OCombineLower v c items))) muts) c = body_of s c.
+Proof. exact cache_unreachable. Qed.
+Print Assumptions C01_cache_unreachable.
+
+(* Non-vacuity *)
+Example C01_domain_inhabited :
+  headers_ok [([76;79;67;65;84;73;79;78], [104;116;116;112;58;47;47;91;102;101;56;48;58;58;50;93;47;100]);
+              ([117;115;110], [85;85;73;68;58;97;58;58;98]); ([88;45;69], [118;228;114;100;101;32;28450;32;127925])] = true.
+Proof. vm_compute. reflexivity. Qed.
